@@ -1,5 +1,6 @@
 use crate::css::{CssString, InvalidCss, Value, is_function_name};
 use crate::value::{ListSeparator, Numeric};
+use std::cmp::Ordering;
 use std::fmt;
 
 /// An operator that can be used in a sass value.
@@ -49,22 +50,24 @@ impl Operator {
     /// Ok(None).
     pub fn eval(&self, a: Value, b: Value) -> Result<Option<Value>, BadOp> {
         fn cmp(
-            a: Value,
-            b: Value,
-            op: &dyn Fn(Value, Value) -> bool,
+            a: &Value,
+            b: &Value,
+            op: &dyn Fn(Ordering) -> bool,
         ) -> Result<Option<Value>, BadOp> {
-            match (&a, &b) {
+            let order = match (a, b) {
                 (Value::Numeric(x, _), Value::Numeric(y, _))
                     if !x.is_comparable(y) =>
                 {
-                    Err(InvalidCss::Incompat(x.clone(), y.clone()).into())
+                    let (x, y) = (x.clone(), y.clone());
+                    return Err(InvalidCss::Incompat(x, y).into());
                 }
-                (Value::Numeric(..), Value::Numeric(..))
-                | (Value::Literal(_), Value::Literal(..)) => {
-                    Ok(Some(Value::from(op(a, b))))
+                (Value::Numeric(x, _), Value::Numeric(y, _)) => {
+                    x.partial_cmp(y)
                 }
-                _ => Ok(None),
-            }
+                (Value::Literal(x), Value::Literal(y)) => x.partial_cmp(y),
+                _ => return Ok(None),
+            };
+            Ok(Some(order.is_some_and(op).into()))
         }
         fn eq_single(a: Value, b: Value) -> Option<Value> {
             match (&a, &b) {
@@ -81,10 +84,10 @@ impl Operator {
             Self::Equal => Some(Value::from(a == b)),
             Self::EqualSingle => eq_single(a, b),
             Self::NotEqual => Some(Value::from(a != b)),
-            Self::Greater => cmp(a, b, &|a, b| a > b)?,
-            Self::GreaterE => cmp(a, b, &|a, b| a >= b)?,
-            Self::Lesser => cmp(a, b, &|a, b| a < b)?,
-            Self::LesserE => cmp(a, b, &|a, b| a <= b)?,
+            Self::Greater => cmp(&a, &b, &Ordering::is_gt)?,
+            Self::GreaterE => cmp(&a, &b, &Ordering::is_ge)?,
+            Self::Lesser => cmp(&a, &b, &Ordering::is_lt)?,
+            Self::LesserE => cmp(&a, &b, &Ordering::is_le)?,
             Self::Plus => match (a, b) {
                 (Value::Numeric(a, _), Value::Numeric(b, _)) => {
                     if a.unit == b.unit || b.is_no_unit() {
